@@ -60,6 +60,14 @@ pub struct GenCfg {
     pub shadow_rate: f64,
     pub print_rate: f64,
     pub nonascii: bool,
+    /// draw variable / parameter names from a small pool, so that the same identifier is
+    /// reused across scopes, functions and nesting levels
+    pub name_pool: bool,
+    /// probability that an identifier use names a variable that is NOT visible here
+    /// (a local of an enclosing function, a variable of a closed block, an unknown name)
+    pub stray_rate: f64,
+    /// probability of degenerate shapes: empty function bodies, empty blocks
+    pub empty_rate: f64,
 }
 
 impl Default for GenCfg {
@@ -76,6 +84,9 @@ impl Default for GenCfg {
             shadow_rate: 0.1,
             print_rate: 0.2,
             nonascii: true,
+            name_pool: false,
+            stray_rate: 0.0,
+            empty_rate: 0.04,
         }
     }
 }
@@ -95,6 +106,9 @@ pub struct Gen {
     fuel_fns: Vec<String>,
     /// recursive functions: their first argument is fuel and is passed as a small literal
     fuel_names: Vec<String>,
+    pending_params: Vec<String>,
+    /// names that exist somewhere in the program but are not visible everywhere
+    all_names: Vec<(String, Ty)>,
 }
 
 const ASCII_WORDS: &[&str] = &[
@@ -119,6 +133,8 @@ impl Gen {
             repeated: 0,
             fuel_fns: Vec::new(),
             fuel_names: Vec::new(),
+            pending_params: Vec::new(),
+            all_names: Vec::new(),
         }
     }
 
@@ -128,6 +144,20 @@ impl Gen {
 
     fn fresh(&mut self, prefix: &str) -> String {
         self.counter += 1;
+        if self.cfg.name_pool && (prefix == "v" || prefix == "p") {
+            // a small pool; names of functions and loop counters stay unique
+            let pool = ["a", "b", "c", "x", "y", "n", "acc", "tmp"];
+            let cand = pool[self.rng.gen_range(0..pool.len())].to_string();
+            // parameters of one function must differ from each other
+            if prefix == "p" {
+                let cur = self.ctxs.last().unwrap();
+                if cur.scopes[0].vars.iter().any(|v| v.name == cand) || self.pending_params.contains(&cand) {
+                    return format!("{prefix}{}", self.counter);
+                }
+                self.pending_params.push(cand.clone());
+            }
+            return cand;
+        }
         format!("{prefix}{}", self.counter)
     }
 
@@ -140,7 +170,22 @@ impl Gen {
     }
 
     fn declare(&mut self, v: Var) {
+        if !matches!(v.ty, Ty::Fn(..)) {
+            self.all_names.push((v.name.clone(), v.ty.clone()));
+        }
         self.cur().scopes.last_mut().unwrap().vars.push(v);
+    }
+
+    /// An identifier that may not be visible at this point (exercises name resolution)
+    fn stray_ident(&mut self, ty: &Ty) -> Option<Expr> {
+        if self.cfg.stray_rate > 0.0 && self.chance(self.cfg.stray_rate) {
+            let c: Vec<&(String, Ty)> = self.all_names.iter().filter(|(_, t)| t == ty).collect();
+            if let Some((n, _)) = c.choose(&mut self.rng) {
+                return Some(id(n));
+            }
+            return Some(id("onbekend"));
+        }
+        None
     }
 
     /// Variables visible here: the current function's scopes, innermost first, then the
@@ -397,6 +442,9 @@ impl Gen {
     }
 
     fn int_expr(&mut self, depth: usize, leaf: bool) -> Expr {
+        if let Some(e) = self.stray_ident(&Ty::Int) {
+            return e;
+        }
         if leaf || depth == 0 {
             let vs = self.vars_of(&Ty::Int);
             if !vs.is_empty() && self.chance(0.6) {
@@ -677,7 +725,9 @@ impl Gen {
 
     /// `functie name(params) { ... }` returning `ret`.
     fn func_literal(&mut self, name: &str, ps: Vec<Ty>, ret: Ty, recursive: bool) -> Expr {
+        self.pending_params.clear();
         let pnames: Vec<String> = ps.iter().map(|_| self.fresh("p")).collect();
+        self.pending_params.clear();
         self.ctxs.push(FnCtx {
             scopes: vec![Scope::default()],
             ret: Some(ret.clone()),
@@ -698,6 +748,17 @@ impl Gen {
         let saved_mult = self.mult;
         self.mult = self.mult.max(4);
         let mut body: Vec<Stmt> = Vec::new();
+        if !recursive && self.chance(self.cfg.empty_rate) {
+            // a function with an empty body (its value is null)
+            self.mult = saved_mult;
+            self.repeated -= 1;
+            self.ctxs.pop();
+            return Expr::Func {
+                name: name.to_string(),
+                params: pnames,
+                body,
+            };
+        }
         if recursive {
             // fuel is the first parameter
             self.cur().scopes[0].vars[0].assignable = false;
